@@ -62,6 +62,11 @@ def programs(tier):
         yield mk(f"each-sig {op} member-typed", [DECL_BB, ("decl", "Signal", "sx", ("proj", V("s"), "signal-X")),
                                                 D("r", B(op, V("bb"), V("sx")))], ["r"], {"s": sd})
         yield mk(f"each-sig {op} untyped", [DECL_BB, D("r", B(op, V("bb"), V("u")))], ["r"], {"u": sd})
+    # the scalar operand is ALSO a member of the bundle (it must arrive on both colours)
+    for op in ("*", "+", "-", "/"):
+        yield mk(f"each-sig {op} own-member", [D("b3", ("bundle", [V("s"), V("y"), ("lit", "signal-B", I(5))])),
+                                              D("r", B(op, V("b3"), V("s")))], ["r"], {"s": [0, 1, 2, -3]})
+    yield mk("filter own-member", [D("b3", ("bundle", [V("s"), V("y")])), D("r", ("cond", B(">", V("b3"), V("s")), V("b3")))], ["r"])
     # filters
     for cmp_ in CMP:
         for k in (0, 1, -2):
